@@ -8,41 +8,73 @@ from vlib import core
 TRUST = ("Lean 4.33 kernel; axioms at most propext/Classical.choice/Quot.sound (audited per run); "
          "hand-written model tied to the C++ by the correspondence harness (differential, generator-bounded); ")
 MANIFEST = dict(
-  text=("Theorems (Props/C19.lean) about an executable model of the importers and exporters. FROM BYTES, for every byte sequence and every "
-        "configuration: the models of importSparseData (line splitting, PEG model of the record grammar, index-order check, dimension / "
-        "zero-base / label logic, dense or sparse, classification or regression, any highestIndex and batch size) and of the three "
-        "csvStringToData families (PEG model of the seven phrase_parse grammars, then row/label/batch logic; any separator, comment "
-        "character, label position, number of outputs, maximum batch size incl. 0 = unlimited) return the library's exception, bad_alloc "
-        "(dense LibSVM vectors beyond the allocation limit) or a well-formed dataset — equal dimensions = shape, sparse indices increasing "
-        "and in range, labels below numberOfClasses, one element per record, batches adding up and bounded — and never write out of bounds "
-        "(import_bytes_wellformed_or_error_svm, import_bytes_wellformed_or_error_csv, on top of import_wellformed_or_error*, "
-        "sparse_writes_in_bounds; file overloads = string overloads on a suffix: dropTitleLines_suffix). No theorem is `_partial` any more: "
-        "the sortedness hypothesis belonged to the pre-fix LibSVM logic, kept as history (legacy_writes_in_bounds_of_sorted + decide-checked "
-        "witnesses). The PEG model never loops without consuming input (parser_total). Round trip at token level for all datasets: "
-        "csv_roundtrip (class 0 present, else the importer's documented shift: csv_roundtrip_shift_witness), csv_roundtrip_regression, "
-        "libsvm_roundtrip. "
-        "The model — PEG-with-skipper interpreter, spirit 1.83's numeric lexers with every rounding of real_impl/scale (uint64 accumulator, "
-        "pow10 table, compensate_roundoff, exponent limits), exact IEEE rounding, the post-parse logic, and the exporters as BYTE printers "
-        "with the number formatting they rely on (%.10e / %.10g / %.6g by exact decimal conversion, setw padding, inf/nan, -1/+1 and +1 "
-        "label mappings, sortLabels, append) — is tied to the real code by exact line-by-line correspondence under ASan/UBSan with an "
-        "allocation limit and a 20 s watchdog per op, in both tiers: all 16 importSparseData overloads (stream and file), csvStringToData "
-        "and importCSV (string and file, titleLines) for Data<RealVector/FloatVector/int/unsigned/float/double> and both labelled families, "
-        "exportCSV (unlabelled, class and vector labels; scientific on/off; field width) and exportSparseData (dense/sparse, float/double, "
-        "oneMinusOne, sortLabels, append): the written file is compared byte for byte, then imported again and compared value for value; "
-        "an independent oracle in the harness judges the round trip (values equal up to the printed precision, floats exactly, labels up "
-        "to the importer's shift) and the well-formedness clauses. Streams: grammar-directed files, byte mutations, a hostile generator "
-        "(huge / duplicate / descending / zero indices, odd labels, CR/LF mixes, trailing separators, NULs, long lines, numbers at the edge "
-        "of double/unsigned/int range, comments) — class histograms, outcomes and the library check that fired are in the evidence."),
+  text=("Theorems (Props/C19.lean, 48) about an executable model of the importers and exporters. FIRST SENTENCE, FROM BYTES, for every "
+        "byte sequence and every configuration: the models of importSparseData (line splitting, PEG model of the record grammar, "
+        "index-order check, dimension / zero-base / label logic, dense or sparse, classification or regression, any highestIndex and "
+        "batch size) and of the three csvStringToData families (PEG model of the seven phrase_parse grammars, then row/label/batch "
+        "logic; any separator, comment character, label position, number of outputs, maximum batch size incl. 0 = unlimited) return the "
+        "library's exception, bad_alloc (dense LibSVM vectors beyond the allocation limit) or a well-formed dataset — equal dimensions = "
+        "shape, sparse indices increasing and in range, labels below numberOfClasses, one element per record, batches adding up and "
+        "bounded — and never write out of bounds (import_bytes_wellformed_or_error_svm, import_bytes_wellformed_or_error_csv, "
+        "sparse_writes_in_bounds; file overloads = string overloads on a suffix: dropTitleLines_suffix); the same for the grammar TEXT "
+        "of Csv.cpp since the repair of F-C19-11 (cleanNumber<T>() = &p >> p in place of every double_/auto_): "
+        "csv_grammars_as_written (parse_cleanReal: identical result, rest and events on every input), "
+        "import_bytes_wellformed_or_error_csv_as_written. NEVER HANG: parser_total (no `*`/`+`/`%` loop of the eight grammars iterates "
+        "without consuming) and last_column_loop_terminates (the hand-written do/while around phrase_parse in "
+        "import_csv_reader_points(LAST_COLUMN): every successful call consumes, so no call is repeated at the same position and "
+        "length+1 iterations suffice). SECOND SENTENCE: token level for all datasets — csv_roundtrip (class 0 present, else the importer's "
+        "documented shift: csv_roundtrip_shift_witness), csv_roundtrip_regression, libsvm_roundtrip (dense), libsvm_roundtrip_sparse, "
+        "libsvm_roundtrip_class (label mappings label+1 and -1/+1 with oneMinusOne, sparse or dense entries); BYTE level — "
+        "printed_number_charset (every printed number, label and index consists of digits, sign, '.', 'e' and the letters of inf/nan "
+        "only, plus setw blanks in a CSV cell: a separator outside these never occurs inside a cell — the separator hypothesis as a "
+        "checked fact), label_index_bytes_roundtrip (int_/uint_ read printed labels/indices back exactly), value_bytes_roundtrip_sci "
+        "and value_bytes_roundtrip_general (for EVERY binary64 value, %.<p>e and all three layouts of %.<p>g: double_ consumes exactly "
+        "the token and returns spirit's conversion of the value rounded to the printed number of significant digits), "
+        "printed_decimal_is_nearest (that decimal has at most p+1 digits and is within half a unit in the last printed place: 'equals "
+        "the original up to the printed precision' — precision 10 is NOT bit-exact, witness in the file), real_intDigits / roundBin_nat "
+        "(integer tokens below 2^53 are converted exactly), and END TO END for exportSparseData -> importSparseData: "
+        "libsvm_export_import_bytes_all — for every dataset of binary64 values (regression labels, or class labels with oneMinusOne "
+        "on/off, sortLabels off), sparse or dense, any batch size: importing the exported BYTES succeeds (no printed double is "
+        "rejected: readBack_fmtG_some, no carry into 1e+309) and yields the same structure, indices, shape, batches and class labels "
+        "with every value = spirit's reading of its 6-digit rounding; and for exportCSV -> csvStringToData: csv_export_import_bytes — "
+        "for every non-empty dataset of binary64 values (unlabelled Data<RealVector>, and LabeledData<RealVector,RealVector> with the "
+        "labels first or last), every separator / comment character satisfying SepOk, scientific format on or off, field width 0, every "
+        "maximum batch size incl. 0: the exporter produces bytes, and importing them through the PEG model of the row grammar "
+        "(skipper, `%` lists, eol handling, trailing line feed) yields the dataset with the same element count, dimensions and batch "
+        "partition and every value = spirit's reading of its 11-digit rounding (readRows_csvRows / readRows_csvRegr in "
+        "Lemmas/ExportCsv.lean: the row reader reads a printed file token by token); csv_export_import_bytes_class_first / _last — the "
+        "same for LabeledData<RealVector, unsigned int> with the label in the FIRST column (label grammar lexeme[int_ >> -('.' >> *'0') "
+        ">> !digit], then *(sep >> cell), rows % eol) and in the LAST column (the hand-written record loop around *(cell >> sep) >> label "
+        ">> (+eol|eoi): the cell loop backs off the label token, one record per phrase_parse call, readPointsLastLoop_print): the "
+        "imported labels are the exported ones (class 0 present), dimensions and batches as constructed. So the second sentence is "
+        "proved from bytes for every exporter/importer family, label position, batch size and every separator allowed by SepOk. "
+        "The model — PEG-with-skipper interpreter, spirit 1.83's numeric lexers with every rounding of real_impl/scale, exact IEEE "
+        "rounding, the post-parse logic, the exporters as BYTE printers (%.10e / %.10g / %.6g by exact decimal conversion, setw, inf/nan, "
+        "label mappings, sortLabels, append) — is tied to the real code by exact line-by-line correspondence under ASan/UBSan + "
+        "-fsanitize=float-cast-overflow with an allocation limit and a 20 s watchdog per op, in both tiers: all 16 importSparseData "
+        "overloads (stream and file), csvStringToData and importCSV (string and file, titleLines) for Data<RealVector/FloatVector/int/"
+        "unsigned/float/double> and both labelled families, exportCSV and exportSparseData (all options): the written file is compared "
+        "byte for byte, then imported again and compared value for value; an independent oracle in the harness judges round trip and "
+        "well-formedness. Streams: grammar-directed files, byte mutations, a hostile generator (13+3 classes), one import in eight into a "
+        "dataset object that already holds data, maximumBatchSize 0 in every family — histograms in the evidence."),
   note=TRUST + "boost::spirit's and iostream's own code is runtime evidence only (sanitizers + watchdog + exact comparison with the model over the "
-       "generated files); 'never hangs' is a theorem about the PEG model (parser_total), for the real parsers it is the watchdog; "
-       "numeric values are compared for tokens whose digits fit spirit's uint64 accumulator (<= 17 digits, any exponent); longer tokens and, "
-       "for the float scalar reader, anything but plain integers of <= 7 digits run for memory safety + oracle only; "
-       "the number formatting model (fmtE/fmtG) and the byte-level round trip parse(print d) are tied by exact correspondence, not proved — the "
-       "round-trip theorems are at token level with the separator outside the characters of a number as an explicit assumption; "
-       "libsvm_roundtrip is proved for regression labels and dense export (class label mappings and sparse inputs: correspondence + oracle); "
-       "sortLabels only for <= 13 elements (std::sort is unstable beyond 16). Open findings probed on every run: F10 (maximumBatchSize 0 divides "
-       "by zero), F11 (spirit leaves the iterator behind a number with out-of-range exponent: read as missing value / dropped), F12 (export_libsvm "
-       "cannot be instantiated); the model has the repaired behaviour, the generated stream avoids the triggers while the probes fail.",
+       "generated files); 'never hangs' is a theorem about the PEG model and the modelled record loop, for the real parsers it is the watchdog; "
+       "numeric values are compared for tokens whose digits fit spirit's uint64 accumulator (<= 17 digits, any exponent); longer tokens "
+       "(spirit's excess-digit path, not modelled) and, for the float scalar reader, anything but plain integers of <= 7 digits run for "
+       "memory safety + oracle only; the formatting model fmtE/fmtG itself (= what iostream prints) is tied by exact correspondence, not "
+       "proved; what IS proved is that the lexer model reads the printer model's bytes back as stated. Byte-level END-TO-END is proved for "
+       "exportSparseData/importSparseData (sortLabels off) and for exportCSV/csvStringToData in all three families and both label "
+       "positions, for separators that are not white space (SepOk: also not NUL, not a character of a number, E, i/I, '(' ) and "
+       "field width 0; for white-space separators (the *Ws grammars) and setw padding the composition through the PEG grammars is "
+       "correspondence + oracle (ops rt, xcsv), the theorems being token level (csv_roundtrip*) + per token + character set; the "
+       "Data<FloatVector> variants differ by static_cast<float> of each value (correspondence). "
+       "'Reproduces the data' therefore means: structure, labels, indices exactly; each value as the correctly rounded decimal with 11 "
+       "(CSV) / 6 (LibSVM) significant digits read by spirit (two roundings for |exponent| > 22) — exact for integers and short decimals, "
+       "not bit-exact in general; separators that are characters of a number (digits - + . e, and E after a plain %g number) are "
+       "outside the claim. sortLabels only in the correspondence, for <= 13 elements (std::sort is unstable beyond 16). "
+       "Open finding F-C19-13 (libsvm classification label converted to int before the range check: UB for NaN/inf/out-of-int-range "
+       "labels, caught by -fsanitize=float-cast-overflow) is probed on every run; while the probe fails such files run one by one in "
+       "their own group. F10/F11/F12 are repaired in /repo; their probes stay as regression tests.",
   technique="Lean 4 proof about an executable importer/exporter model + differential correspondence with the C++ (ASan/UBSan)",
   design="§6 C19, §14 C19")
 
@@ -63,6 +95,24 @@ def hx(b):
 DIGRUN = re.compile(rb"[0-9][0-9.]*")
 EXPTOKEN = re.compile(rb"([0-9]*)(?:\.([0-9]*))?[eE]([+-]?[0-9]+)")
 EXPONENT_RANGE_REPAIRED = False      # set by the probe `exponent-out-of-range` in run()
+
+
+LABEL_CAST_REPAIRED = False          # set by the probe `label-cast` in run() (finding F-C19-13)
+LABTOKEN = re.compile(rb"^[ \t\r\v\f]*([+-]?(?:nan|inf(?:inity)?|(?:[0-9]+\.?[0-9]*|\.[0-9]+)(?:[eE][+-]?[0-9]+)?))", re.I)
+
+
+def label_cast_trigger(data):
+    """finding F-C19-13: libsvm_importer_classification converts the label to int BEFORE any range check; a label that is
+    NaN, infinite or outside the range of int is undefined behaviour there (-fsanitize=float-cast-overflow aborts).
+    True if some line of the file starts with such a label."""
+    for line in data.split(b"\n"):
+        m = LABTOKEN.match(line)
+        if not m: continue
+        try: x = float(m.group(1).decode())
+        except ValueError: continue
+        if x != x or x >= 2147483648.0 or x <= -2147483649.0:
+            return True
+    return False
 
 
 def mode_of(data, float_scalar=False):
@@ -330,7 +380,7 @@ def gen_xcsv(r, ctx=None):
     kind = r.choice(["u", "c", "c", "r", "r"]); ty = r.choice(["f64", "f64", "f32"]); lp = r.choice(["F", "L"])
     nout = r.choice([1, 2, 3]) if kind == "r" else 1
     sep = r.choice(XSEPS); sci = r.choice([1, 1, 0]); width = r.choice([0, 0, 0, 1, 8, 12, 20, 30])
-    maxB = r.choice([1, 2, 3, 5, 256]); n = r.choice([0, 1, 2, 3, 5, 8, 13]); dim = r.choice([1, 1, 2, 3, 6, 0] if r.chance(1, 6) else [1, 2, 3, 6])
+    maxB = r.choice([1, 2, 3, 5, 256] + ([0] if 0 in MAXB_CHOICES else [])); n = r.choice([0, 1, 2, 3, 5, 8, 13]); dim = r.choice([1, 1, 2, 3, 6, 0] if r.chance(1, 6) else [1, 2, 3, 6])
     labelset = r.choice(["01", "012", "12", "all0", "all1", "02", "big"])
     toks = []
     for e in range(n):
@@ -370,6 +420,17 @@ def gen_xsvm(r, ctx=None):
     return " ".join(["xsvm", fmt, lab, ty, str(dims), str(bs), str(omo), str(srt), str(app), str(n), str(dim)] + toks)
 
 
+def reuse_prefix(r, ctx=None):
+    """boundary class "reuse of objects": one import in eight goes into a dataset object that already holds data"""
+    re_ = r.chance(1, 8)
+    if ctx: ctx.hist("target_object", "holds-data" if re_ else "fresh")
+    return "reuse " if re_ else ""
+
+
+def strip_reuse(op):
+    return op[6:] if op.startswith("reuse ") else op
+
+
 def svm_op(r, data, ctx=None, forced=None):
     fmt = r.choice(["d", "s"]); lab = r.choice(["c", "r"]); ty = r.choice(["f64", "f32"])
     dims = r.choice([0, 0, 0, 1, 3, 8, 25, 25, 131072, 4294967295])
@@ -379,7 +440,7 @@ def svm_op(r, data, ctx=None, forced=None):
     via = "svmf" if r.chance(1, 4) else "svm"
     if ctx:
         ctx.hist("svm_overload", f"{fmt}{lab}{ty}{'-file' if via == 'svmf' else '-stream'}"); ctx.hist("mode", m); ctx.hist("batch_size_arg", bs); ctx.hist("dims_arg", dims)
-    return f"{via} {fmt} {lab} {ty} {dims} {bs} {m} {hx(data)}"
+    return reuse_prefix(r, ctx) + f"{via} {fmt} {lab} {ty} {dims} {bs} {m} {hx(data)}"
 
 
 def gen_csv_file(r, kind, lp, sep, nout, ctx=None, comment="#"):
@@ -454,7 +515,12 @@ def avoid_f11(ctx, make, float_scalar=False):
     return data
 
 
-def csv_op(params, data, ctx=None):
+def csv_op(params, data, ctx=None, r=None):
+    pre = reuse_prefix(r, ctx) if r is not None else ""
+    return pre + csv_op0(params, data, ctx)
+
+
+def csv_op0(params, data, ctx=None):
     kind, ty, lp, sep, nout, maxb = params[:6]
     comment = params[6] if len(params) > 6 else "#"
     title = params[7] if len(params) > 7 else None
@@ -483,15 +549,16 @@ def gen_csv1(r, ctx=None):
     for t in toks:
         out += t + r.choice([" ", " ", "\n", "\t", "\r\n", "  "])
     if r.chance(1, 3): out = out.rstrip()
-    maxb = r.choice([1, 2, 3, 256])
-    if ctx: ctx.hist("csv1_type", ty); ctx.hist("csv1_values", n)
+    maxb = r.choice(MAXB_CHOICES)
+    if ctx: ctx.hist("csv1_type", ty); ctx.hist("csv1_values", n); ctx.hist("csv1_batch", maxb)
     return ty, maxb, out.encode()
 
 
-def csv1_op(ty, maxb, data, ctx=None):
+def csv1_op(ty, maxb, data, ctx=None, r=None):
     m = mode_of(data, float_scalar=(ty == "f32"))
     if ctx: ctx.hist("mode", m)
-    return f"csv1 {ty} {ord('#')} {maxb} {m} {hx(data)}"
+    pre = reuse_prefix(r, ctx) if r is not None else ""
+    return pre + f"csv1 {ty} {ord('#')} {maxb} {m} {hx(data)}"
 
 
 def gen_rt(r, ctx=None):
@@ -500,7 +567,7 @@ def gen_rt(r, ctx=None):
     if r.chance(3, 5):
         kind = r.choice(["c", "r"]); lp = r.choice(["F", "L"]); sep = r.choice([",", ";", " ", "\t", "|", ":"])
         nout = r.choice([1, 2, 3]) if kind == "r" else 1
-        maxb = r.choice([1, 2, 3, 5, 256])
+        maxb = r.choice([1, 2, 3, 5, 256] + ([0] if 0 in MAXB_CHOICES else []))
         if ctx:
             ctx.hist("rt_kind", f"csv-{kind}-{lp}"); ctx.hist("rt_separator", repr(sep)); ctx.hist("rt_batch", maxb); ctx.hist("rt_elements", n)
         return f"rt csv {kind} {lp} {nout} {ord(sep)} {maxb} {dim} {seed} {n}"
@@ -523,7 +590,7 @@ def load_corpus():
 
 
 def decode(op):
-    t = op.split()
+    t = strip_reuse(op).split()
     if t[0] in ("rt", "xcsv", "xsvm"): return b""
     return bytes.fromhex(t[-1]) if t[-1] != "-" else b""
 
@@ -537,7 +604,7 @@ def svm_unsorted(data):
 
 
 def classify(ops, res):
-    op = ops[-1]; t = op.split(); data = decode(op)
+    op = strip_reuse(ops[-1]); t = op.split(); data = decode(op)
     what_in = f"{' '.join(t[:-1])} bytes={data[:80]!r}"
     if t[0] == "rt":
         what_in = op
@@ -560,6 +627,10 @@ def classify(ops, res):
             feat = "other"
     else:
         feat = "F9-fractional-label" if t[1] == "c" and re.search(rb"\d\.\d*[1-9]|\d[ \t]+\d", data) else "other"
+    if res.crash and t[0] in ("svm", "svmf") and t[2] == "c" and \
+            re.search(r"runtime error: \S+ is outside the range of representable values of type 'int'", res.stderr):
+        return f"{t[0]}:F13-label-cast-before-range-check:crash:float-cast-overflow", \
+               f"libsvm classification importer converted an out-of-range label to int (undefined behaviour) on {what_in}"
     if res.crash:
         m = re.search(r"(?:ERROR|SUMMARY): AddressSanitizer: (\S+)|runtime error: ([^\n]*)", res.stderr)
         tag = (m.group(1) or m.group(2)) if m else ("timeout" if "TIMEOUT" in res.stderr else "crash")
@@ -572,10 +643,13 @@ def classify(ops, res):
 
 
 def build(ctx):
-    return ctx.harness("c19", ["c19.cpp"], repo_sources=["src/Data/SparseData.cpp", "src/Data/Csv.cpp"])
+    # -fsanitize=float-cast-overflow is not part of -fsanitize=undefined: the importers convert parsed doubles to int
+    return ctx.harness("c19", ["c19.cpp"], repo_sources=["src/Data/SparseData.cpp", "src/Data/Csv.cpp"],
+                       flags=["-fsanitize=float-cast-overflow"])
 
 
 PROBE_EXPRANGE = "csv1 f64 35 256 X 3120322031652d363135"    # "1 2 1e-615": three values (finding F11)
+PROBE_LABELCAST = "svm d c f64 0 0 X 3165313020313a310a"   # "1e10 1:1\\n" as classification data (finding F-C19-13)
 PROBE_MAXB0 = "csv u f64 F 1 44 35 0 X 312c320a332c340a"      # "1,2\\n3,4\\n" with maximumBatchSize = 0 (finding F10)
 
 
@@ -608,7 +682,8 @@ def run(ctx):
                         "longer tokens run for memory safety and the oracle only",
                         "a single allocation above 1 MiB inside an importer is answered by std::bad_alloc (harness operator new)",
                         "exportSparseData(sortLabels=true) uses std::sort, which is not stable: exercised for at most 13 elements, where libstdc++ sorts by insertion",
-                        "round trip: separator outside the characters of a printed number (0-9 . e + - i n f a), the blank characters and the comment character"]
+                        "round trip: separator outside the characters of a printed number (0-9 . e + - i n f a: proved to be all of them, "
+                        "printed_number_charset), E, the blank characters and the comment character"]
     ctx.prove(["SharkVerif.Props.C19"])
     if not ctx.quick:
         ctx.leanchecker(["SharkVerif.Props.C19"])
@@ -631,7 +706,10 @@ def run(ctx):
     # probe: maximumBatchSize = 0 (F10).  While the tree divides by zero there, the generated stream keeps maxB >= 1.
     pr = core.run_case(ctx, [exe, tmp], [drv], [PROBE_MAXB0], env=env, cmp=cmp)
     ctx.cov["probe_maxbatch_zero"] = "passes" if pr.ok else "fails"
-    global MAXB_CHOICES, EXPONENT_RANGE_REPAIRED
+    global MAXB_CHOICES, EXPONENT_RANGE_REPAIRED, LABEL_CAST_REPAIRED
+    pl = core.run_case(ctx, [exe, tmp], [drv], [PROBE_LABELCAST], env=env, cmp=cmp)
+    ctx.cov["probe_label_cast"] = "passes" if pl.ok else "fails"
+    LABEL_CAST_REPAIRED = pl.ok
     pe = core.run_case(ctx, [exe, tmp], [drv], [PROBE_EXPRANGE], env=env, cmp=cmp)
     ctx.cov["probe_exponent_out_of_range"] = "passes" if pe.ok else "fails"
     EXPONENT_RANGE_REPAIRED = pe.ok
@@ -641,44 +719,53 @@ def run(ctx):
     ctx.cov["corpus_cases"] = len(corpus)
     core.correspond(ctx, "K-C19[corpus]", corpus, [exe, tmp], [drv], classify, env=env, keep_prefix=0, max_report=8, cmp=cmp)
     cases = []
+    f13_cases = []      # while F-C19-13 is open: files that trigger it abort the harness, so they run one by one in their own group
+    def add_svm(data):
+        op = svm_op(r, data, ctx)
+        if not LABEL_CAST_REPAIRED and strip_reuse(op).split()[2] == "c" and label_cast_trigger(data):
+            f13_cases.append([op]); ctx.count("svm_cases_with_label_outside_int_range")
+        else:
+            cases.append([op])
     r = ctx.rng.fork("c19")
     for _ in range(nvalid):
-        cases.append([svm_op(r, gen_svm_file(r, ctx), ctx)])
+        add_svm(gen_svm_file(r, ctx))
     for _ in range(nmut):
         base = gen_svm_file(r)
-        cases.append([svm_op(r, mutate(r, base, ctx), ctx)])
+        add_svm(mutate(r, base, ctx))
     for k in range(nhost):
         data = gen_hostile_svm(r, ctx)
         if k % 3 == 2: data = mutate(r, data, ctx)
-        cases.append([svm_op(r, data, ctx)])
+        add_svm(data)
     for _ in range(nvalid):
         prm = csv_params(r)
-        cases.append([csv_op(prm, avoid_f11(ctx, lambda: gen_csv_file(r, prm[0], prm[2], prm[3], prm[4], ctx, comment=prm[6])), ctx)])
+        cases.append([csv_op(prm, avoid_f11(ctx, lambda: gen_csv_file(r, prm[0], prm[2], prm[3], prm[4], ctx, comment=prm[6])), ctx, r)])
     for _ in range(nmut):
         prm = csv_params(r)
-        cases.append([csv_op(prm, avoid_f11(ctx, lambda: mutate(r, gen_csv_file(r, prm[0], prm[2], prm[3], prm[4], comment=prm[6]), ctx)), ctx)])
+        cases.append([csv_op(prm, avoid_f11(ctx, lambda: mutate(r, gen_csv_file(r, prm[0], prm[2], prm[3], prm[4], comment=prm[6]), ctx)), ctx, r)])
     for k in range(nhost):
         prm = csv_params(r)
         data = avoid_f11(ctx, lambda: mutate(r, gen_hostile_csv(r, prm[0], prm[2], prm[3], ctx), ctx) if k % 3 == 2 else gen_hostile_csv(r, prm[0], prm[2], prm[3], ctx))
-        cases.append([csv_op(prm, data, ctx)])
+        cases.append([csv_op(prm, data, ctx, r)])
     for _ in range(nvalid // 5):
         ty, maxb, data = gen_csv1(r, ctx)
         for _ in range(8):
             if EXPONENT_RANGE_REPAIRED or not exp_out_of_range(data, ty == "f32"): break
             ty, maxb, data = gen_csv1(r, ctx)
-        cases.append([csv1_op(ty, maxb, data, ctx)])
+        cases.append([csv1_op(ty, maxb, data, ctx, r)])
     for _ in range(nmut // 5):
         ty, maxb, data = gen_csv1(r)
         data = avoid_f11(ctx, lambda: mutate(r, data, ctx), ty == "f32")
-        cases.append([csv1_op(ty, maxb, data, ctx)])
+        cases.append([csv1_op(ty, maxb, data, ctx, r)])
     nrt = 300 if ctx.quick else 3000
     cases += [[gen_rt(r, ctx)] for _ in range(nrt)]
     for _ in range(nexp):
         cases.append([gen_xcsv(r, ctx)])
         cases.append([gen_xsvm(r, ctx)])
-    ctx.cov["evaluations"] = len(cases) + len(corpus)
+    ctx.cov["evaluations"] = len(cases) + len(corpus) + len(f13_cases)
+    if f13_cases:
+        core.correspond(ctx, "K-C19[label-outside-int-range]", f13_cases, [exe, tmp], [drv], classify, env=env, keep_prefix=0, max_report=8, cmp=cmp)
     def nontrivial(op):
-        t = op.split()
+        t = strip_reuse(op).split()
         if t[0] in ("xcsv", "xsvm"): return int(t[9]) >= 2
         if t[0] == "rt": return int(t[-1]) >= 2
         return decode(op).count(b"\n") >= 2
